@@ -3,7 +3,7 @@ import json
 from fractions import Fraction
 import numpy as np
 from harness import votelib as V
-from harness.common import pmap, lean_query, guard, fr
+from harness.common import pmap, lean_query, guard, fr, safe_judge
 from harness.c01 import chunks
 
 LEVEL = "proof"
@@ -49,6 +49,7 @@ def impl_batch(case):
     return {"results": out}
 
 
+@safe_judge
 def judge(R, it, res, cop_ans, first_ans, rand_ans):
     P, m, zero = it["P"], it["m"], it["zero"]
     fixer = 0 if zero else 1
